@@ -186,8 +186,27 @@ def _eliminate_returns(stmts: List[ast.stmt], on_return) -> Tuple[List[ast.stmt]
             if ot:
                 out.append(ast.copy_location(ast.If(s.test, (b + r) or [ast.Pass()], o), s))
                 return out, rt
-            # returns deeper inside both arms but neither arm always terminates: the remainder would have to be duplicated
-            raise NotInlinable('return inside a branch that may also fall through')
+            # returns deeper inside both arms but neither arm always terminates: the (short) remainder is duplicated into both
+            if len(rest) > 3 or any(isinstance(n, (ast.FunctionDef, ast.ClassDef, ast.For, ast.While, ast.Try, ast.With))
+                                    for x in rest for n in ast.walk(x)):
+                raise NotInlinable('return inside a branch that may also fall through')
+            b, bt = _eliminate_returns(list(s.body) + copy.deepcopy(rest), on_return)
+            o, ot = _eliminate_returns(list(s.orelse) + copy.deepcopy(rest), on_return)
+            out.append(ast.copy_location(ast.If(s.test, b or [ast.Pass()], o), s))
+            return out, bt and ot
+        if isinstance(s, ast.Try) and not s.finalbody and not s.orelse and _contains_return(s):
+            # `try: ...; return e  except X: <terminates>`: the protected region keeps its extent, the value is bound inside it
+            b, bt = _eliminate_returns(s.body, on_return)
+            hs, hts = [], []
+            for h in s.handlers:
+                hb, ht = _eliminate_returns(h.body, on_return)
+                hs.append(ast.copy_location(ast.ExceptHandler(h.type, h.name, hb or [ast.Pass()]), h))
+                hts.append(ht)
+            rest = stmts[i + 1:]
+            if (bt and all(hts)) or not rest:
+                out.append(ast.copy_location(ast.Try(b or [ast.Pass()], hs, [], []), s))
+                return out, bt and all(hts)
+            raise NotInlinable('return inside try with a remainder to skip')
         if _contains_return(s):
             raise NotInlinable('return inside %s' % type(s).__name__)
         out.append(s)
@@ -291,7 +310,9 @@ class _Inliner:
                 base = nm
                 if base.startswith('_%s__' % caller_cls.lstrip('_')):
                     base = base[len('_%s' % caller_cls.lstrip('_')):]
-                if (caller_cls, base) in self.helpers and f.value.id in (caller_self, caller_cls):
+                if (caller_cls, base) in self.helpers and (f.value.id in (caller_self, caller_cls) or (
+                        base.startswith('__') and not base.endswith('__'))):
+                    # a name-mangled private method can only be this class's own, whatever the receiver is called
                     return self.helpers[(caller_cls, base)], f.value
         return None, None
 
@@ -380,6 +401,8 @@ class _Inliner:
             call, kind = st.value, 'assign'
         elif isinstance(st, ast.AnnAssign) and isinstance(st.value, ast.Call) and st.simple:
             call, kind = st.value, 'annassign'
+        if call is None and isinstance(st, ast.If):
+            return self._inline_guard(st, caller_cls, caller_self)
         if call is None:
             return None
         g, recv = self._callee(call, caller_cls, caller_self)
@@ -400,14 +423,91 @@ class _Inliner:
 
             def assign(v, s):
                 return [ast.copy_location(ast.Assign([copy.deepcopy(target)], v if v is not None else ast.Constant(None), lineno=s.lineno), s)]
-            new, term = _eliminate_returns(body, assign)
-            if not term:
+            if not body or not isinstance(body[-1], (ast.Return, ast.Raise)):
                 # falling off the end of the helper yields None
-                new = new + [ast.copy_location(ast.Assign([copy.deepcopy(target)], ast.Constant(None), lineno=st.lineno), st)] \
-                    if not new or not _always_assigns(new, target) else new
+                body = body + [ast.copy_location(ast.Return(ast.Constant(None)), st)]
+            new, term = _eliminate_returns(body, assign)
             return pre + new
         except NotInlinable:
             return None
+
+    def _decomprehend(self, st: ast.stmt, caller_cls, caller_self) -> Optional[List[ast.stmt]]:
+        """`v = [h(..) for t in xs if c]` with h a multi-statement helper -> `v = []; for t in xs: if c: tmp = h(..); v.append(tmp)`
+        so that the call becomes a statement the inliner can expand (N6 folds the loop back when it stays simple)"""
+        if not (isinstance(st, ast.Assign) and len(st.targets) == 1 and isinstance(st.targets[0], ast.Name)
+                and isinstance(st.value, ast.ListComp) and len(st.value.generators) == 1
+                and not st.value.generators[0].is_async and isinstance(st.value.elt, ast.Call)):
+            return None
+        g, _ = self._callee(st.value.elt, caller_cls, caller_self)
+        if g is None or any(isinstance(n, (ast.Yield, ast.YieldFrom)) for n in ast.walk(g)):
+            return None
+        body = [x for x in g.body if not _is_doc_or_log(x)]
+        if len(body) == 1 and isinstance(body[0], ast.Return):
+            return None             # an expression helper: handled in place
+        gen = st.value.generators[0]
+        v = st.targets[0].id
+        if any(isinstance(n, ast.Name) and n.id == v for x in [gen.iter, gen.target, st.value.elt] + gen.ifs for n in ast.walk(x)):
+            return None
+        self.counter += 1
+        tmp = '%s__e%d' % (v, self.counter)
+        inner: List[ast.stmt] = [
+            ast.copy_location(ast.Assign([ast.Name(tmp, ast.Store())], st.value.elt, lineno=st.lineno), st),
+            ast.copy_location(ast.Expr(ast.Call(ast.Attribute(ast.Name(v, ast.Load()), 'append', ast.Load()),
+                                                [ast.Name(tmp, ast.Load())], [])), st)]
+        for c in reversed(gen.ifs):
+            inner = [ast.copy_location(ast.If(c, inner, []), st)]
+        return [ast.copy_location(ast.Assign([ast.Name(v, ast.Store())], ast.List([], ast.Load()), lineno=st.lineno), st),
+                ast.copy_location(ast.For(gen.target, gen.iter, inner, [], lineno=st.lineno), st)]
+
+    def _inline_guard(self, st: ast.If, caller_cls, caller_self) -> Optional[List[ast.stmt]]:
+        """`if [not] h(args): S` with S ending in return/raise, h a checking helper whose returns are boolean constants: every
+        return that makes the test true becomes S, the one that makes it false must be h's last statement and is dropped.
+        (This is how a validation loop with early exits looks after `extract method`.)"""
+        if st.orelse or not st.body or not isinstance(st.body[-1], (ast.Return, ast.Raise)):
+            return None
+        test, neg = st.test, False
+        if isinstance(test, ast.UnaryOp) and isinstance(test.op, ast.Not):
+            test, neg = test.operand, True
+        if not isinstance(test, ast.Call):
+            return None
+        g, recv = self._callee(test, caller_cls, caller_self)
+        if g is None or any(isinstance(n, (ast.Yield, ast.YieldFrom)) for n in ast.walk(g)):
+            return None
+        if any(isinstance(n, (ast.Break, ast.Continue)) for b in st.body for n in ast.walk(b)):
+            return None
+        try:
+            pre, body = self._instantiate(g, test, recv)
+        except NotInlinable:
+            return None
+        if not body or not isinstance(body[-1], ast.Return):
+            return None
+        rets = [n for b in body for n in ast.walk(b) if isinstance(n, ast.Return)]
+        for r in rets:
+            if not (isinstance(r.value, ast.Constant) and isinstance(r.value.value, bool)):
+                return None
+            fires = (r.value.value != neg)
+            if not fires and r is not body[-1]:
+                return None
+        if (body[-1].value.value != neg):
+            return None         # the last return takes S as well: nothing would be left to fall through
+
+        def repl(stmts):
+            out = []
+            for s_ in stmts:
+                if isinstance(s_, ast.Return):
+                    if s_ is body[-1]:
+                        continue
+                    out += copy.deepcopy(st.body)
+                    continue
+                for fld in ('body', 'orelse', 'finalbody'):
+                    v = getattr(s_, fld, None)
+                    if isinstance(v, list) and v and isinstance(v[0], ast.stmt):
+                        setattr(s_, fld, repl(v) or [ast.Pass()])
+                for h in getattr(s_, 'handlers', []) or []:
+                    h.body = repl(h.body) or [ast.Pass()]
+                out.append(s_)
+            return out
+        return pre + (repl(body) or [ast.copy_location(ast.Pass(), st)])
 
     def _inline_for(self, st: ast.For, caller_cls, caller_self) -> Optional[List[ast.stmt]]:
         if not isinstance(st.iter, ast.Call) or st.orelse:
@@ -500,7 +600,9 @@ class _Inliner:
             if isinstance(st, (ast.FunctionDef, ast.AsyncFunctionDef, ast.ClassDef)):
                 out.append(st)
                 continue
-            rep = self._inline_stmt(st, caller_cls, caller_self)
+            rep = self._decomprehend(st, caller_cls, caller_self)
+            if rep is None:
+                rep = self._inline_stmt(st, caller_cls, caller_self)
             if rep is None and isinstance(st, ast.For):
                 rep = self._inline_for(st, caller_cls, caller_self)
             if rep is not None:
